@@ -30,6 +30,14 @@ theorem matcher_order_is_modelled : Generated.LexerCfg.matcherOrder = matcherNam
     before the main loop (regenerated from /repo; moving the assignment breaks this obligation) -/
 theorem textlength_is_lexed_length : Generated.LexerCfg.textlengthIsLexedLength = true := by decide
 
+/-- The Python inside a directive is checked by the node constructors, outside the lexer model (the model's
+    parameter); what the property needs from that side is that a rejection by CPython's parser – of whatever
+    exception class: `SyntaxError`, `ValueError`, `UnicodeEncodeError` for a lone surrogate, `MemoryError` /
+    `RecursionError` for very deep nesting – leaves `Lexer.parse` as a Mako `SyntaxException`: the handler in
+    `mako/pyparser.py: parse` is `Exception`-wide (regenerated from /repo; narrowing it breaks this obligation, and
+    the hostile-Python oracle stream of the harness then shows the raw exception). -/
+theorem python_errors_are_wrapped : Generated.LexerCfg.pyparserWrapsEveryException = true := by decide
+
 /-! ## termination and progress -/
 
 /-- Every pass through the matcher cascade that continues the loop strictly advances the cursor and keeps
